@@ -9,8 +9,15 @@ RULE = ('random slot edits (optional/required raw and value properties, every Mu
         '1,2,3,-1,-2) in generated ledgers and test-corpus documents; frame oracle on the real store: tokens outside the '
         'parent keep identity/order/text, surviving tokens keep relative order, siblings and untouched items keep their '
         'text, every run of tokens that appears or disappears contains a token of the child itself. '
+        'Model correspondence (lock-step with resync, harness/corr_repeated.py, driver prefix R): every opt-set / req-set on a '
+        'generated model and every rep-* call on a raw wrapper is replayed on Model/Slots.lean / Model/Repeated.lean from the '
+        'dumped pre-state; the resulting store (ids, kinds, texts, fresh tokens as N) and item spans are diffed; the same for the '
+        'exhaustive (len, start, stop, step, #values) grid. '
         'distinct non-trivial = distinct (operation kind, parent class, field, outcome)')
-ASSUMPTIONS = ['"parent" of an edit is the model whose slot/view is addressed']
+ASSUMPTIONS = ['"parent" of an edit is the model whose slot/view is addressed',
+               'views, meta mappings and value-level properties are observed at the raw-wrapper level only (their reduction to raw '
+               'operations is C10/C09 matter); compound ops (pop+insert) are counted as skipped',
+               'the abstract store of Model/Seq.lean is licensed by C07 for the real blocked store']
 
 
 def _observers():
@@ -26,6 +33,9 @@ def _observers():
 def run(ctx):
     obs = _observers() if ctx.extra.get('model_available', True) else []
     session.run_sessions(ctx, ctx.scale(250, 6000), ctx.scale(14, 40), ['frame'], observers=obs)
+    if obs:
+        import corr_repeated
+        corr_repeated.grid(ctx, obs[0])   # exhaustive index/slice grid through the same observer (one driver batch)
     session.finish_observers(ctx, obs)
     slicegrid.run(ctx, ['frame'])
 
